@@ -121,7 +121,7 @@ type clientWorld struct {
 	validator  int // 0 default, 1 custom ok, 2 custom rejects at attempt k
 	rejectAt   int
 	rejectErr  error
-	bodyKind   int // 0 none, 1 NoBody, 2 replayable, 3 no GetBody, 4 GetBody fails at k
+	bodyKind   int // 0 none, 1 NoBody, 2 replayable, 3 no GetBody, 4 GetBody fails at k, 5 replayable, each body unusable once closed (a file)
 	getBodyN   int
 	getBodyErr error
 	failGetAt  int
@@ -270,7 +270,7 @@ func (w *clientWorld) genClientStream() []byte {
 			vals := []string{"1", "25", "300", "2000", "60000", "1000000000000", "abc", "", "-5", "+7", "1.5", "007", "0000000000000000040", "00000000000000000000000000000300"}
 			sb.WriteString("retry: " + vals[ch.Intn(len(vals), "retry value")] + eol)
 		}
-		if prop == "C13" || ch.Chance(5, 6, "data field") {
+		if (prop == "C13" && ch.Chance(11, 12, "data field")) || (prop != "C13" && ch.Chance(5, 6, "data field")) {
 			sb.WriteString("data: e" + strconv.Itoa(w.dataSeq) + eol)
 			if ch.Chance(1, 5, "second data line") {
 				sb.WriteString("data: more" + eol)
@@ -331,7 +331,7 @@ func (w *clientWorld) generate() {
 		}
 	}
 	if prop == "C10" || ch.Chance(1, 4, "request body") {
-		w.bodyKind = ch.Weighted([]int{2, 1, 4, 2, 2}, "body kind")
+		w.bodyKind = ch.Weighted([]int{2, 1, 4, 2, 2, 2}, "body kind")
 		w.bodyBytes = []byte("payload-" + strconv.Itoa(ch.Intn(1000, "payload")))
 		if w.bodyKind == 4 {
 			w.failGetAt = ch.Range(1, 3, "GetBody fails at")
@@ -726,9 +726,26 @@ type plainReader struct{ r *bytes.Reader }
 
 func (p *plainReader) Read(b []byte) (int, error) { return p.r.Read(b) }
 
+// closableBody is a request body that stops working once it is closed, like an *os.File.
+type closableBody struct {
+	r      *bytes.Reader
+	closed bool
+}
+
+func (b *closableBody) Read(p []byte) (int, error) {
+	if b.closed {
+		return 0, newInjected("read of a request body that was closed")
+	}
+	return b.r.Read(p)
+}
+
+func (b *closableBody) Close() error { b.closed = true; return nil }
+
 func (w *clientWorld) newRequest() *http.Request {
 	var body io.Reader
 	switch w.bodyKind {
+	case 5:
+		body = &closableBody{r: bytes.NewReader(w.bodyBytes)}
 	case 2, 4:
 		body = bytes.NewReader(w.bodyBytes)
 	case 3:
@@ -744,6 +761,14 @@ func (w *clientWorld) newRequest() *http.Request {
 	}
 	if w.bodyKind == 1 {
 		req.Body = http.NoBody
+	}
+	if w.bodyKind == 5 {
+		req.ContentLength = int64(len(w.bodyBytes))
+		req.GetBody = func() (io.ReadCloser, error) {
+			w.getBodyN++
+			return &closableBody{r: bytes.NewReader(w.bodyBytes)}, nil
+		}
+		w.o.probe("request body that is unusable once closed")
 	}
 	if w.bodyKind == 4 {
 		orig := req.GetBody
